@@ -43,10 +43,11 @@ const (
 	fNoAdv
 	fNoID
 	fX3 // advisory X, body 1 except for a nested CVSS score (conflicts with fX1 only deep inside the struct)
+	fX4 // advisory X, body 1 with the severity but WITHOUT the optional CVSS score (conflicts with fX1 and fX3)
 	nFindingKinds
 )
 
-var fNames = []string{"X/body1", "X/body2", "Y/body1", "no-advisory", "no-advisory-id", "X/body1-other-cvss"}
+var fNames = []string{"X/body1", "X/body2", "Y/body1", "no-advisory", "no-advisory-id", "X/body1-other-cvss", "X/body1-no-cvss"}
 
 func mkFinding(k int, extra string) *detector.Finding {
 	switch k {
@@ -56,6 +57,9 @@ func mkFinding(k int, extra string) *detector.Finding {
 	case fX3:
 		return &detector.Finding{Adv: &detector.Advisory{ID: &detector.AdvisoryID{Publisher: "P", Reference: "X"}, Title: "body1",
 			Sev: &detector.Severity{Severity: detector.SeverityHigh, CVSSV3: &detector.CVSS{BaseScore: 9.8}}}, Extra: extra}
+	case fX4:
+		return &detector.Finding{Adv: &detector.Advisory{ID: &detector.AdvisoryID{Publisher: "P", Reference: "X"}, Title: "body1",
+			Sev: &detector.Severity{Severity: detector.SeverityHigh}}, Extra: extra}
 	case fX2:
 		return &detector.Finding{Adv: &detector.Advisory{ID: &detector.AdvisoryID{Publisher: "P", Reference: "X"}, Title: "body2"}, Extra: extra}
 	case fY1:
@@ -110,7 +114,10 @@ type pkgDef struct {
 
 var pkgDefs = []pkgDef{{"n1", "1", "t1"}, {"n1", "2", "t1"}, {"n2", "1", "t2"}, {"nopurl", "1", ""}}
 
-type metaT struct{ typ string }
+type metaT struct {
+	typ      string
+	purlName string // if set, the package URL's name (the package's display name then differs from it)
+}
 
 type fsEx struct {
 	scankit.Ex
@@ -120,6 +127,9 @@ func toPURL(p *extractor.Package) *purl.PackageURL {
 	m, _ := p.Metadata.(*metaT)
 	if m == nil || m.typ == "" {
 		return nil
+	}
+	if m.purlName != "" {
+		return &purl.PackageURL{Type: m.typ, Name: m.purlName, Version: p.Version}
 	}
 	return &purl.PackageURL{Type: m.typ, Name: p.Name, Version: p.Version}
 }
@@ -181,7 +191,7 @@ func pkgStr(ps []*extractor.Package) []string {
 func runCase(c cfgT) (key, detail string) {
 	mk := func(i int) *extractor.Package {
 		d := pkgDefs[i]
-		return &extractor.Package{Name: d.name, Version: d.ver, Locations: []string{"f.pkg"}, Metadata: &metaT{d.typ}}
+		return &extractor.Package{Name: d.name, Version: d.ver, Locations: []string{"f.pkg"}, Metadata: &metaT{typ: d.typ}}
 	}
 	fe := &fsEx{scankit.Ex{N: "fs-ex", Req: scankit.ReqBase("f.pkg"), Out: func(e *scankit.Ex, in *filesystem.ScanInput, _ []byte, _ error) (inventory.Inventory, error) {
 		var inv inventory.Inventory
@@ -280,8 +290,11 @@ func runCase(c cfgT) (key, detail string) {
 				continue
 			}
 			body := fd.Adv.Title
-			if fd.Adv.Sev != nil && fd.Adv.Sev.CVSSV3 != nil {
-				body += fmt.Sprintf("/cvss3=%v", fd.Adv.Sev.CVSSV3.BaseScore)
+			if fd.Adv.Sev != nil {
+				body += "/sev"
+				if fd.Adv.Sev.CVSSV3 != nil {
+					body += fmt.Sprintf("/cvss3=%v", fd.Adv.Sev.CVSSV3.BaseScore)
+				}
 			}
 			if t, ok := seen[fd.Adv.ID.Reference]; ok && t != body {
 				invalid = true
@@ -415,9 +428,13 @@ type idxPkg struct{ name, typ string }
 func indexCase(pkgs []idxPkg, failingStandalone bool, deco int) (key, detail string) {
 	nmk := deco
 	mk := func(d idxPkg) *extractor.Package {
-		p := &extractor.Package{Name: d.name, Version: "1", Locations: []string{"f.pkg"}, Metadata: &metaT{d.typ}}
+		p := &extractor.Package{Name: d.name, Version: "1", Locations: []string{"f.pkg"}, Metadata: &metaT{typ: d.typ}}
 		// every optional field of a package in turn: none of them decides whether the package is "extracted"
-		switch nmk % 7 {
+		switch nmk % 8 {
+		case 7:
+			// the package's own name is a display name; the index is keyed by the package URL's name
+			p.Name = "Display Name of " + d.name
+			p.Metadata = &metaT{typ: d.typ, purlName: d.name}
 		case 1:
 			p.Annotations = []extractor.Annotation{extractor.Transitional}
 		case 2:
@@ -463,9 +480,20 @@ func indexCase(pkgs []idxPkg, failingStandalone bool, deco int) (key, detail str
 	}
 	var problems []string
 	ran := 0
-	det := &scankit.Det{N: "det-0", Fn: func(_ context.Context, _ *scalibrfs.ScanRoot, px *packageindex.PackageIndex) ([]*detector.Finding, error) {
+	var required []string
+	if deco%2 == 1 {
+		// the detector declares a required extractor; packages from OTHER extractors still belong in the index
+		required = []string{"python/requirements"}
+	}
+	det := &scankit.Det{N: "det-0", Required: required, Fn: func(_ context.Context, _ *scalibrfs.ScanRoot, px *packageindex.PackageIndex) ([]*detector.Finding, error) {
 		ran++
-		id := func(p *extractor.Package) idxPkg { return idxPkg{p.Name, p.Metadata.(*metaT).typ} }
+		id := func(p *extractor.Package) idxPkg {
+			m := p.Metadata.(*metaT)
+			if m.purlName != "" {
+				return idxPkg{m.purlName, m.typ}
+			}
+			return idxPkg{p.Name, m.typ}
+		}
 		for _, t := range idxTypes {
 			wantT := map[idxPkg]int{}
 			for _, d := range pkgs {
@@ -553,7 +581,7 @@ func indexNames(r *ev.Run) {
 		for _, failing := range []bool{false, true} {
 			decos := []int{0}
 			if len(cases[i]) == 1 {
-				decos = []int{0, 1, 2, 3, 4, 5, 6} // a single package with each optional field set in turn
+				decos = []int{0, 1, 2, 3, 4, 5, 6, 7} // a single package with each optional field set in turn
 			}
 			for _, deco := range decos {
 				k, d := indexCase(cases[i], failing, deco)
@@ -648,5 +676,5 @@ func main() {
 		r.Set(fmt.Sprintf("detector_lists_of_length_%d", pl.k), total)
 	}
 	indexNames(r)
-	r.Finish("every ordered list of 0..2 detectors over all 86 scripts (finding lists of length <=2 over {X/body1, X/body2 (other title), X/body1 with another nested CVSS score, Y/body1, no advisory, no advisory id} x {ok, error}) x all 16 inventories (2 packages from a filesystem extractor, 2 from a standalone extractor, one without PURL, two versions of one name); lists of 3 over the 14 short scripts (thorough: all 86 scripts x 3 inventories; lists of 4 over short scripts); for lists with >=2 findings and the empty/full inventory also with findings that all carry the same Extra text (differing only in target location, or identical); index lookups: every single package, every ordered pair of one type and the whole alphabet of 12 names (separators - _ . , case, scope, slash, space, non-ASCII) x 5 purl types (packages carry, in rotation, each annotation, a source-code identifier, layer details, no location), each queried by GetSpecific/GetAllOfType for every (name,type); lists of 1..2 detectors also over 2 and 3 scan roots; real Scanner.Scan vs reference model of the detector run", complete)
+	r.Finish("every ordered list of 0..2 detectors over all 114 scripts (finding lists of length <=2 over {X/body1, X/body2 (other title), X/body1 with another nested CVSS score, X/body1 without the optional CVSS score, Y/body1, no advisory, no advisory id} x {ok, error}) x all 16 inventories (2 packages from a filesystem extractor, 2 from a standalone extractor, one without PURL, two versions of one name); lists of 3 over the 14 short scripts (thorough: all 86 scripts x 3 inventories; lists of 4 over short scripts); for lists with >=2 findings and the empty/full inventory also with findings that all carry the same Extra text (differing only in target location, or identical); index lookups: every single package, every ordered pair of one type and the whole alphabet of 12 names (separators - _ . , case, scope, slash, space, non-ASCII) x 5 purl types (packages carry, in rotation, each annotation, a source-code identifier, layer details, no location, a display name different from the package URL's name; the detector with and without a declared required extractor), each queried by GetSpecific/GetAllOfType for every (name,type); lists of 1..2 detectors also over 2 and 3 scan roots; real Scanner.Scan vs reference model of the detector run", complete)
 }
